@@ -1682,11 +1682,47 @@ func childAtPaths(repo string) (string, error) {
 // the workflow (workflow.go, generator.go): per function, the sequence of effectful steps in source
 // order. A step is a call with its arguments; message strings and calls of Debug are left out (wording
 // is not behaviour); `range X { … }` and `Once.Do(func() { … })` bracket the steps inside them.
+type stepTarget struct{ file, recv, name string }
+
 func workflowSteps(repo string) (string, error) {
-	targets := []struct{ file, recv, name string }{
+	return stepTable(repo, "workflowSteps", "workflow.go, generator.go", []stepTarget{
 		{"workflow.go", "standardWorkflow", "Init"}, {"workflow.go", "standardWorkflow", "Run"}, {"workflow.go", "standardWorkflow", "Persist"},
 		{"workflow.go", "onceWorkflow", "Init"}, {"workflow.go", "onceWorkflow", "Run"}, {"workflow.go", "onceWorkflow", "Persist"},
-		{"generator.go", "Generator", "AST"}, {"generator.go", "Generator", "Render"}}
+		{"generator.go", "Generator", "AST"}, {"generator.go", "Generator", "Render"}})
+}
+
+// comment.go: the steps of C, C80 and commentScanner, and the constants they are written with
+func commentSteps(repo string) (string, error) {
+	t, err := stepTable(repo, "commentSteps", "comment.go", []stepTarget{{"comment.go", "", "C"}, {"comment.go", "", "C80"}, {"comment.go", "", "commentScanner"}})
+	if err != nil {
+		return "", err
+	}
+	f := parse(filepath.Join(repo, "comment.go"))
+	prefix, ok := strLit(constExprs(f)["commentPrefix"])
+	if !ok {
+		return "", fmt.Errorf("comment.go: commentPrefix is not a string literal")
+	}
+	// the width handed to the split function: `splitComment(wrap - K)`
+	off := ""
+	ast.Inspect(f, func(n ast.Node) bool {
+		if c, ok := n.(*ast.CallExpr); ok && exprText(c.Fun) == "splitComment" && len(c.Args) == 1 {
+			if b, ok := c.Args[0].(*ast.BinaryExpr); ok && b.Op == token.SUB && exprText(b.X) == "wrap" {
+				if bl, ok := b.Y.(*ast.BasicLit); ok && bl.Kind == token.INT {
+					off = bl.Value
+				}
+			}
+		}
+		return true
+	})
+	if off == "" {
+		return "", fmt.Errorf("comment.go: the split width is not `wrap - <constant>`")
+	}
+	return t + "/-- comment.go: the marker, and what is taken off the requested width for it -/\n" +
+		"def commentPrefix : List Nat := " + bytesLit(prefix) + "   -- " + strconv.Quote(prefix) + "\n" +
+		"def commentWidthOffset : Nat := " + off + "\n", nil
+}
+
+func stepTable(repo, defName, what string, targets []stepTarget) (string, error) {
 	callText := func(c *ast.CallExpr) string {
 		var args []string
 		for _, a := range c.Args {
@@ -1758,6 +1794,15 @@ func workflowSteps(repo string) (string, error) {
 						return err
 					}
 					steps = append(steps, "}")
+				case *ast.ForStmt:
+					if x.Init != nil || x.Post != nil || x.Cond == nil {
+						return fmt.Errorf("%s.%s: for statement with init / post", t.recv, t.name)
+					}
+					steps = append(steps, "for "+exprText(x.Cond)+" {")
+					if err := walk(x.Body.List); err != nil {
+						return err
+					}
+					steps = append(steps, "}")
 				case *ast.IfStmt:
 					if x.Init != nil {
 						return fmt.Errorf("%s.%s: if with init", t.recv, t.name)
@@ -1797,8 +1842,8 @@ func workflowSteps(repo string) (string, error) {
 		}
 		out = append(out, fmt.Sprintf("(%q, [%s])", t.recv+"."+t.name, strings.Join(q, ",\n     ")))
 	}
-	return "/-- workflow.go, generator.go: the effectful steps of each function, in source order (messages and Debug calls left out) -/\n" +
-		"def workflowSteps : List (String × List String) :=\n  [" + strings.Join(out, ",\n   ") + "]\n", nil
+	return "/-- " + what + ": the effectful steps of each function, in source order (messages and Debug calls left out) -/\n" +
+		"def " + defName + " : List (String × List String) :=\n  [" + strings.Join(out, ",\n   ") + "]\n", nil
 }
 
 // the hydrate functions of ast.go: in source order, the registration of the entity itself (`g.add`),
@@ -1959,7 +2004,7 @@ func genCode(repo string) (map[string]string, error) {
 	tables := []struct {
 		name string
 		gen  func(string) (string, error)
-	}{{"nameHelpers", nameHelpers}, {"acceptOrders", acceptOrders}, {"typePredicates", typePredicates}, {"hydratePhases", hydratePhases}, {"childAtPaths", childAtPaths}, {"workflowSteps", workflowSteps}}
+	}{{"nameHelpers", nameHelpers}, {"acceptOrders", acceptOrders}, {"typePredicates", typePredicates}, {"hydratePhases", hydratePhases}, {"childAtPaths", childAtPaths}, {"workflowSteps", workflowSteps}, {"commentSteps", commentSteps}}
 	for _, g := range tables {
 		t, err := g.gen(repo)
 		if err != nil {
